@@ -205,11 +205,15 @@ func (iss *ACMEIssuer) newACMEClient(useTestCA bool) (*acmez.Client, error) {
 	// exclusive of other ones because it is usually only used
 	// in situations where the default challenges would fail)
 	if iss.DNS01Solver == nil {
+		// challenge info must be stored where getChallengeInfo looks for it,
+		// which is under the issuer's key (also when the test CA is used)
+		issuerPrefix := storageKeyACMECAPrefix(iss.IssuerKey())
+
 		// enable HTTP-01 challenge
 		if !iss.DisableHTTPChallenge {
 			client.ChallengeSolvers[acme.ChallengeTypeHTTP01] = distributedSolver{
 				storage:                iss.config.Storage,
-				storageKeyIssuerPrefix: iss.storageKeyCAPrefix(client.Directory),
+				storageKeyIssuerPrefix: issuerPrefix,
 				solver: &httpSolver{
 					handler: iss.HTTPChallengeHandler(http.NewServeMux()),
 					address: net.JoinHostPort(iss.ListenHost, strconv.Itoa(iss.getHTTPPort())),
@@ -221,7 +225,7 @@ func (iss *ACMEIssuer) newACMEClient(useTestCA bool) (*acmez.Client, error) {
 		if !iss.DisableTLSALPNChallenge {
 			client.ChallengeSolvers[acme.ChallengeTypeTLSALPN01] = distributedSolver{
 				storage:                iss.config.Storage,
-				storageKeyIssuerPrefix: iss.storageKeyCAPrefix(client.Directory),
+				storageKeyIssuerPrefix: issuerPrefix,
 				solver: &tlsALPNSolver{
 					config:  iss.config,
 					address: net.JoinHostPort(iss.ListenHost, strconv.Itoa(iss.getTLSALPNPort())),
